@@ -211,16 +211,28 @@ func (e *routeEngine) mkNodes(n int) {
 	e.order = nil
 	// an address nobody listens on: a socket that is bound (so that no other process or case
 	// can be given the port while the case runs) but never listens - connects are refused
-	fd, err := syscall.Socket(syscall.AF_INET, syscall.SOCK_STREAM, 0)
-	if err != nil {
-		panic(err)
-	}
-	if err := syscall.Bind(fd, &syscall.SockaddrInet4{Addr: [4]byte{127, 0, 0, 1}}); err != nil {
-		panic(err)
-	}
-	sa, err := syscall.Getsockname(fd)
-	if err != nil {
-		panic(err)
+	// (no SO_REUSEADDR on purpose: a listener must never be handed this port; without it a bind
+	// to port 0 fails while the ephemeral range is full of TIME_WAIT sockets - wait that out)
+	var fd int
+	var sa syscall.Sockaddr
+	for try := 0; ; try++ {
+		var err error
+		fd, err = syscall.Socket(syscall.AF_INET, syscall.SOCK_STREAM, 0)
+		if err == nil {
+			if err = syscall.Bind(fd, &syscall.SockaddrInet4{Addr: [4]byte{127, 0, 0, 1}}); err == nil {
+				sa, err = syscall.Getsockname(fd)
+			}
+			if err != nil {
+				_ = syscall.Close(fd)
+			}
+		}
+		if err == nil {
+			break
+		}
+		if try >= 300 {
+			panic(err)
+		}
+		time.Sleep(time.Duration(100+try*10) * time.Millisecond)
 	}
 	e.deadFd = fd
 	e.deadAddr = "127.0.0.1:" + strconv.Itoa(sa.(*syscall.SockaddrInet4).Port)
